@@ -136,8 +136,28 @@ template <template <class...> class GT, class L> void binary(Reporter &R, uint64
                 unlink(path.c_str());
                 return;
             }
-            if (bytes != want) {
-                R.violation(cls + "/writeBinaryEdgeList/byte-layout", "file bytes " + hexOf(bytes) + " differ from u32le src, u32le dst, label-le per edge " + hexOf(want) + "; graph " + s.str());
+            // the statement fixes the record layout, not the order of the records: compare the records as a multiset
+            // (and, for an undirected graph, not the orientation in which a pair is written)
+            auto records = [rec](const std::string &b) {
+                std::vector<std::string> v;
+                for (size_t off = 0; off + rec <= b.size(); off += rec) {
+                    std::string one = b.substr(off, rec);
+                    if (!directed) {
+                        uint32_t a, c;
+                        memcpy(&a, one.data(), 4);
+                        memcpy(&c, one.data() + 4, 4);
+                        if (a > c) {
+                            memcpy(&one[0], &c, 4);
+                            memcpy(&one[4], &a, 4);
+                        }
+                    }
+                    v.push_back(one);
+                }
+                std::sort(v.begin(), v.end());
+                return v;
+            };
+            if (records(bytes) != records(want)) {
+                R.violation(cls + "/writeBinaryEdgeList/byte-layout", "file records " + hexOf(bytes) + " are not the records u32le src, u32le dst, label-le of the edges " + hexOf(want) + "; graph " + s.str());
                 unlink(path.c_str());
                 return;
             }
